@@ -97,6 +97,7 @@ class ProgramRunner:
         self.fuel = prog.get("fuel", 100)
         self.registry: list[Event] = []
         self.log: list[tuple] = []  # (uid, step, clock_ns, event_time_ns)
+        self.tlog: list[tuple] = []  # (clock_ns, event_type, entity, step): identity-free, comparable across reset()
         self.problems: list[tuple] = []  # (sig, msg) noticed at delivery time
         self.entities = [ScriptEntity(f"E{i}", i, self) for i in range(prog["n_entities"])]
         self.sim = None
@@ -163,10 +164,12 @@ class ScriptEntity(Entity):
         self.idx = idx
         self.r = runner
         self.chain = 0  # state hash chain (for C04 "resulting component state")
+        self._cur_type = None
 
     def _note(self, uid: int, step: int, ev_time_ns: int) -> int:
         now = self.now.nanoseconds
         self.r.log.append((uid, step, now, ev_time_ns))
+        self.r.tlog.append((now, self._cur_type if step > 0 else None, self.idx, max(step, 0)))
         self.chain = hash((self.chain, uid, step, now)) & 0xFFFFFFFFFFFF
         return now
 
@@ -176,6 +179,7 @@ class ScriptEntity(Entity):
         if event._cancelled:
             r.problems.append(("cancelled-delivered", f"cancelled event uid={uid} delivered"))
         now = self._note(uid, -1, event.time.nanoseconds)
+        r.tlog[-1] = (now, event.event_type, self.idx, 0)
         # state carried by the event itself (not by the entity): an event is handled once, so this is 0 on arrival
         meta = event.context["metadata"]
         seen_before = meta.get("seen", 0)
@@ -221,6 +225,7 @@ class ScriptEntity(Entity):
     def _process(self, uid: int, h: dict):
         r = self.r
         step = 0
+        my_type = r.tlog[-1][1]
         for st in h.get("steps", []):
             now = self.now.nanoseconds
             side = r.emit_all(now, st.get("emits", []))
@@ -232,6 +237,7 @@ class ScriptEntity(Entity):
             else:
                 yield st["d"]
             step += 1
+            self._cur_type = my_type
             self._note(uid, step, -1)
         now = self.now.nanoseconds
         created = r.emit_all(now, h.get("emits", []))
